@@ -36,6 +36,22 @@ pub fn escape_eval(m: &str) -> Cow<str> {
     ESC_E.replace_all(m, "eval(escape_assertion(${1}))")
 }
 
+/// Joins the fields of one rule; a field containing a comma is quoted so that
+/// `parse_csv_line` reads it back as one field.
+pub(crate) fn join_csv_fields(fields: &[String], sep: &str) -> String {
+    fields
+        .iter()
+        .map(|f| {
+            if f.contains(',') {
+                format!("\"{}\"", f)
+            } else {
+                f.to_owned()
+            }
+        })
+        .collect::<Vec<_>>()
+        .join(sep)
+}
+
 pub fn parse_csv_line<S: AsRef<str>>(line: S) -> Option<Vec<String>> {
     let line = line.as_ref().trim();
     if line.is_empty() || line.starts_with('#') {
